@@ -44,8 +44,16 @@ type ProbeCommon struct {
 	Count  int `control:"Common-Count"`
 }
 
+// the same with a lower-case type name: the embedded member is then "unexported" to reflection
+// although its own members are not
+type probeCommonLower struct {
+	Vendor string `required:"true"`
+	Tier   int
+}
+
 type probeEmb struct {
 	ProbeCommon
+	probeCommonLower
 	Extra string
 }
 
@@ -307,7 +315,7 @@ var specC09Scalars = Register(&Spec[ScalarsCase]{
 			return errf("three values written as %q read back as %+v", texts, ys)
 		}
 		// members of an anonymously embedded plain struct are members like any other
-		emb := probeEmb{ProbeCommon{Origin: "o" + c.Req, Label: c.Str, Count: c.Num}, c.Renamed}
+		emb := probeEmb{ProbeCommon{Origin: "o" + c.Req, Label: c.Str, Count: c.Num}, probeCommonLower{Vendor: "v" + c.Req, Tier: 3}, c.Renamed}
 		etext, err := marshalToText(&emb)
 		if err != nil {
 			return errf("Marshal of a struct with an embedded plain struct failed: %v", err)
@@ -329,6 +337,13 @@ var specC09Scalars = Register(&Spec[ScalarsCase]{
 			var z probeScalars
 			if err := control.Unmarshal(&z, strings.NewReader(dropFieldLines(text, req))); err == nil {
 				return errf("Unmarshal accepted %q although the required field %q is missing", dropFieldLines(text, req), req)
+			}
+			// the paragraph-level route checks requirements just the same
+			if pp, err := paraOfText(dropFieldLines(text, req)); err == nil {
+				var z2 probeScalars
+				if err := control.UnpackFromParagraph(pp, &z2); err == nil {
+					return errf("UnpackFromParagraph accepted a paragraph without the required field %q (%q)", req, dropFieldLines(text, req))
+				}
 			}
 		}
 		return nil
